@@ -179,6 +179,20 @@ Proof.
   split; [eapply args_ok_count; eassumption|]. fin.
 Qed.
 
+(* ---- matrix swizzles: every component lies inside the matrix; an lvalue only without a repeated component ---- *)
+Theorem wt_matrix_swizzle idx t lv x :
+  check_node (KMSwz idx) t lv [x] = None ->
+  exists r c s, strip (e_ty x) = TMatrix r c s /\
+    forallb (fun i => (i / 4 <? r) && (i mod 4 <? c)) idx = true /\
+    lv = (e_lv x && nodupN idx)%bool.
+Proof.
+  intros C. cbn [check_node] in C. destruct idx as [|i idx]; [discriminate|].
+  destruct (strip (e_ty x)) as [| | |r c s| | | | | | | |] eqn:E; try discriminate.
+  split_err. exists r, c, s. repeat split.
+  - match goal with H : forallb _ _ = true |- _ => exact H end.
+  - match goal with H : Bool.eqb _ _ = true |- _ => apply Bool.eqb_prop in H; exact H end.
+Qed.
+
 (* ---- statements: a returned value has the function's type, an initialiser the variable's ---- *)
 Theorem wt_return ret e : wt_stmt ret (SRet (Some e)) = None -> wt e = None /\ same (e_ty e) ret = true.
 Proof. cbn. intros E. split_err. split; assumption. Qed.
@@ -219,6 +233,9 @@ Proof.
   - (* sequence *) cbn [derive_node]. rewrite <- map_rev. destruct (rev kids) as [|last r]; [discriminate|].
     cbn. unfold ann. fin.
   - (* swizzle *) destruct kids as [|x [|? ?]]; try discriminate. destruct idx as [|i idx]; [discriminate|].
+    cbn [map derive_node ann]. unfold ann. cbn [e_ty e_lv].
+    destruct (strip (e_ty x)); try discriminate; fin.
+  - (* matrix swizzle *) destruct kids as [|x [|? ?]]; try discriminate. destruct idx as [|i idx]; [discriminate|].
     cbn [map derive_node ann]. unfold ann. cbn [e_ty e_lv].
     destruct (strip (e_ty x)); try discriminate; fin.
   - (* opaque *) destruct kids; reflexivity.
